@@ -1,14 +1,240 @@
-import Hls.Storage.Model
+import Hls.Storage.Lemmas
 /-!
 # C17 — Storage returns exactly what was written; RAM and disk are equivalent
-Property theorems only (helper lemmas live in `Hls/Storage/Lemmas.lean`).
+
+Property theorems only (helper lemmas live in `Hls/Storage/Lemmas*.lean`; every definition
+that occurs in a statement below is in `Hls/Storage/Model.lean`).
+
+Reading guide.  `Spec` is the byte-slice specification: a file is a list of `Buf`s
+(byte list + cursor), `Write` overwrites at the cursor and then extends, `Seek` past the end
+zero-fills, the part reader returns the part's bytes, the file reader (only after `Finalize`)
+returns the concatenation, `Size` is the total length once finalized.  `Ram` / `Disk` mirror
+`pkg/storage`.  `WF ops` is the discipline of the property's quantifier (writes and seeks go to
+the most recently allocated part, nothing is written after `Finalize`, `Finalize` once, readers
+name existing parts, no `Remove`); `WFrm` is the same with `Remove` allowed anywhere.
 -/
 namespace Hls.Props.C17
 open Hls.Storage
+
+/-! ## 1. `seekablebuffer.Buffer` -/
+
+/-- `Write` at the cursor: overwrite what is there, extend with the rest; the cursor moves by
+    `len p` and stays inside the buffer. -/
+theorem c17_write_at_cursor (b : Buf) (p : Bytes) (h : b.pos ≤ b.data.length) :
+    (b.write p).data = b.data.take b.pos ++ p ++ b.data.drop (b.pos + p.length)
+    ∧ (b.write p).pos = b.pos + p.length
+    ∧ (b.write p).pos ≤ (b.write p).data.length :=
+  ⟨Buf.write_data b p h, Buf.write_pos b p, Buf.write_inv b p h⟩
+
+/-- `Seek` (start / current): a negative target is an error and changes nothing; otherwise the
+    data is zero-extended up to the target, the cursor is the target, and the cursor is inside
+    the buffer afterwards (no precondition needed). -/
+theorem c17_seek_zero_fill (b : Buf) (off : Int) (w : Whence) :
+    let t : Int := match w with
+      | .start => off
+      | .cur => (b.pos : Int) + off
+    (t < 0 → b.seek off w = none) ∧
+    (0 ≤ t →
+      b.seek off w = some { data := b.data ++ zeros (t.toNat - b.data.length), pos := t.toNat }
+      ∧ t.toNat ≤ (b.data ++ zeros (t.toNat - b.data.length)).length) := by
+  have h := Buf.seek_eq b off w
+  cases w <;> simp only [seekTarget] at h <;> intro t <;> refine ⟨fun ht => ?_, fun ht => ⟨?_, ?_⟩⟩
+  all_goals first
+    | (rw [h]; simp only [t] at ht ⊢; simp [ht]; done)
+    | (rw [h]; simp only [t] at ht ⊢; simp [Int.not_lt.mpr ht]; done)
+    | (simp only [List.length_append, length_zeros]; omega)
+
+example : ({ data := [1, 2, 3, 4, 5], pos := 1 } : Buf).write [9, 8] = { data := [1, 9, 8, 4, 5], pos := 3 } := by decide
+example : ({ data := [1, 2, 3], pos := 2 } : Buf).write [9, 8, 7] = { data := [1, 2, 9, 8, 7], pos := 5 } := by decide
+example : ({ data := [1, 2], pos := 2 } : Buf).seek 3 .cur = some { data := [1, 2, 0, 0, 0], pos := 5 } := by decide
+example : ({ data := [1, 2], pos := 2 } : Buf).seek (-3) .cur = none := by decide
+
+/-! ## 2. `ramFileReader.Read` -/
+
+/-- One `Read` call, entered with the loop state `(c, acc)` (`acc = p[:n]`), with ANY fuel of at
+    least `(#parts − curPart) + 1` — in particular `readFuel`, so the model's loop bound never
+    cuts the real loop short.  With `R` = the bytes ahead of the cursor and `want = len p − n`:
+    * it returns `acc ++ R.take want` (so a fresh call returns `min (len p) |R|` bytes);
+    * `io.EOF` iff fewer than `want` bytes were ahead or the cursor was past the last part at
+      entry — `(n > 0, io.EOF)` together is possible (`0 < |R| < len p`), `(0, nil)` is returned
+      for `len p = 0` while parts remain;
+    * the new cursor is usable and has exactly `R.drop want` ahead. -/
+theorem c17_ram_read_call (parts : List Bytes) (lenp fuel : Nat) (c : RCur) (acc : Bytes)
+    (hok : c.ok parts) (hacc : acc.length ≤ lenp) (hfuel : parts.length - c.curPart + 1 ≤ fuel) :
+    ∃ c', ramRead parts lenp fuel c acc =
+            (acc ++ (remaining parts c).take (lenp - acc.length),
+             decide ((remaining parts c).length < lenp - acc.length ∨ parts.length ≤ c.curPart),
+             c')
+          ∧ c'.ok parts
+          ∧ remaining parts c' = (remaining parts c).drop (lenp - acc.length) :=
+  ramRead_spec parts lenp fuel c acc hok hacc hfuel
+
+/-- The model's `readFuel` satisfies the bound above for every cursor. -/
+theorem c17_read_fuel_sufficient (parts : List Bytes) (lenp : Nat) (c : RCur) :
+    parts.length - c.curPart + 1 ≤ readFuel parts lenp := by
+  simp only [readFuel]; omega
+
+/-- A fresh call returns `min (len p) (bytes ahead)` bytes. -/
+theorem c17_ram_read_count (parts : List Bytes) (lenp : Nat) (c : RCur) (hok : c.ok parts) :
+    (ramRead parts lenp (readFuel parts lenp) c []).1.length = min lenp (remaining parts c).length :=
+  ramRead_count parts lenp c hok
+
+/-- The file reader returns the parts concatenated in allocation order, for EVERY sequence of
+    read-buffer sizes (including 0) followed by a drain; no fuel of the model runs out. -/
+theorem c17_file_reader_concat (parts : List Bytes) (bufs : List Nat) :
+    ramReadFile parts bufs = parts.flatten :=
+  ramReadFile_eq parts bufs
+
+-- non-vacuity of `c17_ram_read_call`: a usable cursor inside the second part; (n>0, EOF) together
+example : RCur.ok [[1, 2], [], [3, 4, 5]] ⟨2, 1⟩ := by unfold RCur.ok; decide
+example : ramRead [[1, 2], [], [3, 4, 5]] 7 (readFuel [[1, 2], [], [3, 4, 5]] 7) ⟨2, 1⟩ [] = ([4, 5], true, ⟨3, 0⟩) := by
+  decide
+-- a zero-length buffer returns (0, nil) and steps over one empty part at most
+example : ramRead [[], [], [3]] 0 (readFuel [[], [], [3]] 0) ⟨0, 0⟩ [] = ([], false, ⟨1, 0⟩) := by decide
+example : ramReadFile [[1, 2], [], [3, 4, 5]] [0, 1, 0, 3, 0] = [1, 2, 3, 4, 5] := by decide
+
+/-! ## 3.–5. Refinement and equivalence -/
+
+/-- RAM back end = specification on every disciplined op list, `Remove` included. -/
+theorem c17_ram_refines (ops : List Op) (h : WFrm ops) : runRam {} ops = runSpec {} ops :=
+  (ram_run true ops {} {} RamRel.init h).1
+
+/-- Disk back end = specification on every disciplined op list (until `Remove`). -/
+theorem c17_disk_refines (ops : List Op) (h : WF ops) : runDisk {} ops = runSpec {} ops :=
+  (disk_run ops {} {} DiskInv.init h).1
+
+/-- RAM and disk are observationally identical until `Remove`. -/
+theorem c17_ram_disk_equiv (ops : List Op) (h : WF ops) : runRam {} ops = runDisk {} ops := by
+  rw [c17_ram_refines ops h.toWFrm, c17_disk_refines ops h]
+
+/-- … and whatever happens afterwards (`rest` is arbitrary: `Remove`, undisciplined ops),
+    the observations made during the disciplined prefix coincide. -/
+theorem c17_ram_disk_equiv_prefix (pre rest : List Op) (h : WF pre) :
+    (runRam {} (pre ++ rest)).take pre.length = (runDisk {} (pre ++ rest)).take pre.length := by
+  rw [runRam_append, runDisk_append, List.take_left' (runRam_length _ _),
+      List.take_left' (runDisk_length _ _)]
+  exact c17_ram_disk_equiv pre h
+
+/-- Three parts (one empty), a rewrite of earlier bytes, a seek past the end followed by a
+    write, a trailing seek past the end, readers before and after `Finalize`, several buffer
+    size lists. -/
+def exOps : List Op :=
+  [.newPart, .write 0 [1, 2, 3, 4, 5], .seek 0 1 .start, .write 0 [9, 8], .seek 0 4 .cur, .write 0 [7],
+   .readPart 0, .readFile [1], .size,
+   .newPart, .newPart, .write 2 [6], .seek 2 2 .cur, .seek 2 (-9) .cur, .readPart 1,
+   .finalize, .readPart 0, .readPart 1, .readPart 2, .readFile [0, 3, 0, 2], .readFile [], .size]
+
+example : WF exOps := by decide
+example : WFrm (exOps ++ [.remove, .size, .readFile [2], .readPart 0]) := by decide
+example : runSpec {} exOps =
+    [.unit, .n 5, .n 1, .n 2, .n 7, .n 1, .bytes [1, 9, 8, 4, 5, 0, 0, 7], .err, .n 0,
+     .unit, .unit, .n 1, .n 3, .err, .bytes [],
+     .unit, .bytes [1, 9, 8, 4, 5, 0, 0, 7], .bytes [], .bytes [6, 0, 0],
+     .bytes [1, 9, 8, 4, 5, 0, 0, 7, 6, 0, 0], .bytes [1, 9, 8, 4, 5, 0, 0, 7, 6, 0, 0], .n 11] := by decide
+example : runDisk {} exOps = runSpec {} exOps := by decide
+example : runRam {} exOps = runSpec {} exOps := by decide
+
+/-- The discipline is needed for the disk statements: writing to an earlier part after a later
+    one was allocated makes the disk back end (not the RAM one) lose data. -/
+example : runRam {} [.newPart, .write 0 [1], .newPart, .write 0 [2, 3], .finalize, .readFile [], .size]
+    ≠ runDisk {} [.newPart, .write 0 [1], .newPart, .write 0 [2, 3], .finalize, .readFile [], .size] := by decide
+
+/-! ## 6. Corollaries about reachable states -/
+
+/-- Each part's reader returns exactly the part's bytes (as defined by the write/seek
+    semantics of section 1), before and after `Finalize`, in both back ends. -/
+theorem c17_part_reader_exact (ops : List Op) (k : Nat) (b : Buf) (h : WF ops)
+    (hk : (Spec.exec {} ops).parts[k]? = some b) :
+    ((Ram.exec {} ops).step (.readPart k)).2 = .bytes b.data
+    ∧ ((Disk.exec {} ops).step (.readPart k)).2 = .bytes b.data := by
+  have hlt : k < (Spec.exec {} ops).parts.length := by
+    rcases Nat.lt_or_ge k (Spec.exec {} ops).parts.length with h1 | h1
+    · exact h1
+    · rw [List.getElem?_eq_none h1] at hk; cases hk
+  have hw (a : Bool) : wfS a (Spec.exec {} ops) [.readPart k] := by
+    simp [wfS, wfFrom, hlt]
+  have hs : ((Spec.exec {} ops).step (.readPart k)).2 = .bytes b.data := by
+    rw [Spec.step_readPart _ k b hk]
+  exact ⟨(ram_step true _ _ _ [] (ram_run true ops {} {} RamRel.init h.toWFrm).2 (hw true)).1.trans hs,
+         (disk_step _ _ _ [] (disk_run ops {} {} DiskInv.init h).2 (hw false)).1.trans hs⟩
+
+/-- RAM part readers stay exact when `Remove` occurs anywhere. -/
+theorem c17_part_reader_exact_ram_rm (ops : List Op) (k : Nat) (b : Buf) (h : WFrm ops)
+    (hk : (Spec.exec {} ops).parts[k]? = some b) :
+    ((Ram.exec {} ops).step (.readPart k)).2 = .bytes b.data := by
+  have hr := (ram_run true ops {} {} RamRel.init h).2
+  simp [Ram.step, hr.parts, hk]
+
+/-- `Size` is the total length of the parts once finalized (and 0 before), in both back ends. -/
+theorem c17_size_total (ops : List Op) (h : WF ops) :
+    let total := ((Spec.exec {} ops).parts.map (·.data.length)).sum
+    let expect := if .finalize ∈ ops then total else 0
+    ((Ram.exec {} ops).step .size).2 = .n expect ∧ ((Disk.exec {} ops).step .size).2 = .n expect := by
+  intro total expect
+  have hw (a : Bool) : wfS a (Spec.exec {} ops) [.size] := by simp [wfS, wfFrom]
+  have hs : ((Spec.exec {} ops).step .size).2 = .n expect := by
+    simp only [Spec.step, Spec.exec_finalized, expect, total, Spec.content, List.length_flatten,
+      List.map_map]
+    simp [Function.comp_def]
+  exact ⟨(ram_step true _ _ _ [] (ram_run true ops {} {} RamRel.init h.toWFrm).2 (hw true)).1.trans hs,
+         (disk_step _ _ _ [] (disk_run ops {} {} DiskInv.init h).2 (hw false)).1.trans hs⟩
+
+/-- The file cannot be read before `Finalize`: after ANY op list (disciplined or not) that
+    contains no `Finalize`, the file reader of both back ends fails. -/
+theorem c17_no_read_before_finalize (ops : List Op) (bufs : List Nat) (h : ∀ op ∈ ops, op ≠ .finalize) :
+    ((Ram.exec {} ops).step (.readFile bufs)).2 = .err
+    ∧ ((Disk.exec {} ops).step (.readFile bufs)).2 = .err := by
+  constructor
+  · have := Ram.exec_finalized {} ops h
+    simp [Ram.step, this]
+  · exact congrArg Prod.snd (Disk.step_readFile_open _ bufs ((Disk.exec_fOpen {} ops h).trans rfl))
 
 /-- A file cannot be read before `Finalize` (RAM back end, any state). -/
 theorem c17_no_read_before_finalize_ram (s : Ram) (bufs : List Nat) (h : s.finalized = false) :
     (s.step (.readFile bufs)).2 = .err := by
   simp [Ram.step, h]
+
+/-- `Remove` deletes the disk file: after ANY op list containing `Remove` the file reader
+    fails; on a disciplined (`WFrm`) list that also contains `Finalize`, every part reader fails
+    too (parts of a file that is not finalized yet are still served from their RAM mirror). -/
+theorem c17_remove_deletes (ops : List Op) (hrm : .remove ∈ ops) :
+    (∀ bufs, ((Disk.exec {} ops).step (.readFile bufs)).2 = .err)
+    ∧ (WFrm ops → .finalize ∈ ops → ∀ k, ((Disk.exec {} ops).step (.readPart k)).2 = .err) := by
+  have hr := Disk.exec_removed_of_mem {} ops hrm
+  refine ⟨fun bufs => Disk.readFile_removed _ bufs hr, fun hwf hfin k => ?_⟩
+  apply Disk.readPart_removed _ k hr
+  exact Disk.exec_bufs_none ops {} 0 false (fun h => by cases h) hwf (by simpa using hfin)
+
+/-- On disk, before `Finalize` the file may lack a zero tail of the content (a trailing seek
+    past the end is not materialised by `pwrite`); `Finalize` pads it: afterwards the file on
+    disk IS the concatenation of the parts. -/
+theorem c17_disk_file_content (ops : List Op) (h : WF ops) :
+    let d := Disk.exec {} ops
+    let content := (Spec.exec {} ops).content
+    (.finalize ∉ ops → d.file.length ≤ content.length
+        ∧ d.file ++ zeros (content.length - d.file.length) = content)
+    ∧ (.finalize ∈ ops → d.file = content ∧ ∀ p ∈ d.parts, p.buf = none) := by
+  intro d content
+  have hi := (disk_run ops {} {} DiskInv.init h).2
+  have hf := Spec.exec_finalized {} ops
+  constructor
+  · intro hn
+    have : (Spec.exec {} ops).finalized = false := by simp [hf, hn]
+    exact (FileOK_iff _ _).mp (hi.pre this).2.2.2
+  · intro hn
+    have : (Spec.exec {} ops).finalized = true := by simp [hf, hn]
+    exact ⟨(hi.post this).2.2.2.2, (hi.post this).2.2.1⟩
+
+-- non-vacuity of the corollaries
+example : (Spec.exec {} exOps).parts[2]? = some { data := [6, 0, 0], pos := 3 } := by decide
+example : Op.finalize ∈ exOps := by decide
+example : ∀ op ∈ exOps.take 15, op ≠ Op.finalize := by decide
+example : ((Disk.exec {} (exOps.take 15)).step (.readFile [3])).2 = .err := by decide
+example : Op.remove ∈ exOps ++ [.remove, .size] ∧ WFrm (exOps ++ [.remove, .size]) := by decide
+example : ((Disk.exec {} (exOps ++ [.remove, .size])).step (.readPart 0)).2 = .err := by decide
+-- before Finalize the disk file really is shorter than the content (trailing seek), after it is not
+example : (Disk.exec {} (exOps.take 15)).file = [1, 9, 8, 4, 5, 0, 0, 7, 6]
+    ∧ (Spec.exec {} (exOps.take 15)).content = [1, 9, 8, 4, 5, 0, 0, 7, 6, 0, 0] := by decide
+example : (Disk.exec {} exOps).file = [1, 9, 8, 4, 5, 0, 0, 7, 6, 0, 0] := by decide
 
 end Hls.Props.C17
